@@ -392,23 +392,55 @@ fn parse_cps(s: &str) -> Vec<u32> {
     if s == "-" { vec![] } else { s.split('.').map(|x| u32::from_str_radix(x, 16).unwrap()).collect() }
 }
 
-/// tokens a generated lex function can accept, read off parser.c
-fn accepted_in(parser_c: &str, func: &str) -> Vec<usize> {
-    let mut v = Vec::new();
-    if let Some(i) = parser_c.find(&format!("static bool {func}(")) {
-        let body = &parser_c[i..];
-        let end = body.find("\n}\n").unwrap_or(body.len());
-        let mut rest = &body[..end];
-        while let Some(j) = rest.find("ACCEPT_TOKEN(sym_t") {
-            let tail = &rest[j + 18..];
-            let n: String = tail.chars().take_while(|c| c.is_ascii_digit()).collect();
-            if let Ok(k) = n.parse() { v.push(k); }
-            rest = tail;
+/// name of the C function assigned to a field of the TSLanguage initialiser (`.lex_fn = NAME,`)
+fn language_field_fn(parser_c: &str, field: &str) -> Option<String> {
+    let key = format!(".{field} =");
+    let i = parser_c.find(&key)?;
+    let rest = parser_c[i + key.len()..].trim_start();
+    let name: String = rest.chars().take_while(|c| c.is_ascii_alphanumeric() || *c == '_').collect();
+    if name.is_empty() { None } else { Some(name) }
+}
+
+/// token indices a generated lex function can accept.  Tolerant of renames inside parser.c: the function
+/// is found through the TSLanguage field it is assigned to, its body by brace matching, and every
+/// `ACCEPT_TOKEN(IDENT)` is mapped to a token through the `[IDENT] = "tN"` rows of the symbol-name table.
+fn accepted_in(parser_c: &str, field: &str) -> Option<Vec<usize>> {
+    let func = language_field_fn(parser_c, field)?;
+    let mut start = None;
+    let mut from = 0;
+    while let Some(j) = parser_c[from..].find(&format!("{func}(")) {
+        let at = from + j;
+        // a definition: followed by a parameter list and `{`, not `;`
+        let after = &parser_c[at..];
+        if let Some(close) = after.find(')') {
+            let tail = after[close + 1..].trim_start();
+            if tail.starts_with('{') { start = Some(at + close + 1 + (after[close + 1..].len() - tail.len())); break; }
         }
+        from = at + func.len();
+    }
+    let start = start?;
+    let bytes = parser_c.as_bytes();
+    let (mut depth, mut end) = (0i32, start);
+    for (k, b) in bytes[start..].iter().enumerate() {
+        match b { b'{' => depth += 1, b'}' => { depth -= 1; if depth == 0 { end = start + k; break; } } _ => {} }
+    }
+    let body = &parser_c[start..end];
+    let mut v = Vec::new();
+    let mut rest = body;
+    while let Some(j) = rest.find("ACCEPT_TOKEN(") {
+        let tail = &rest[j + 13..];
+        let ident: String = tail.chars().take_while(|c| c.is_ascii_alphanumeric() || *c == '_').collect();
+        // `[IDENT] = "tN",` in the symbol names table
+        if let Some(r) = parser_c.find(&format!("[{ident}] = \"t")) {
+            let num: String = parser_c[r + ident.len() + 7..].chars().take_while(|c| c.is_ascii_digit()).collect();
+            let closes = parser_c[r + ident.len() + 7 + num.len()..].starts_with('"');
+            if closes { if let Ok(k) = num.parse() { v.push(k); } }
+        }
+        rest = tail;
     }
     v.sort();
     v.dedup();
-    v
+    Some(v)
 }
 
 /// (keyword tokens, tokens accepted by neither lexer).  With a word token the generator moves the
@@ -416,12 +448,16 @@ fn accepted_in(parser_c: &str, func: &str) -> Vec<usize> {
 /// be classified from the generated code and makes the set ambiguous (skipped by the driver).
 fn keyword_sets(parser_c: &str, ts: &TokSet) -> (Vec<usize>, Vec<usize>) {
     if ts.word.is_none() { return (vec![], vec![]); }
-    let main = accepted_in(parser_c, "ts_lex");
-    let kws = accepted_in(parser_c, "ts_lex_keywords");
-    let ambig = (0..ts.toks.len()).filter(|i| !main.contains(i) && !kws.contains(i)).collect();
-    (kws, ambig)
+    match (accepted_in(parser_c, "lex_fn"), accepted_in(parser_c, "keyword_lex_fn")) {
+        (Some(main), Some(kws)) => {
+            let ambig = (0..ts.toks.len()).filter(|i| !main.contains(i) && !kws.contains(i)).collect();
+            (kws, ambig)
+        }
+        // nothing could be read off the generated code: every token other than the word token is unclassified
+        // (the driver then infers one assignment for the whole set, or skips the set when there are too many)
+        _ => (vec![], (0..ts.toks.len()).filter(|i| Some(*i) != ts.word).collect()),
+    }
 }
-
 
 // ------------------------------------------------------------------------------------------------
 // context-aware lexing: two-mode grammars.  `(` switches to mode A, `)` to mode B; each token is
